@@ -115,16 +115,13 @@ func recursiveCheckAllRelationsTypesHaveRelation(p *parser, item item, namespace
 		return
 	}
 	for _, t := range r.Types {
-		if t.Relation == "" {
-			if _, ok := p.query().findRelation(t.Namespace, relation); !ok {
-				p.addErr(item, "relation %q was not declared in namespace %q",
-					relation, t.Namespace)
-			}
-		} else {
-			// Type is a subject set, we need to recursively check if the type has
-			// the required relation.
-			recursiveCheckAllRelationsTypesHaveRelation(
-				p, item, t.Namespace, t.Relation, relation, depth-1)
+		// The check engine evaluates the traversed relation on the namespace of
+		// every subject of the tuples, also for subject sets: for a subject
+		// set type SubjectSet<N, "r"> it checks N:object#relation and ignores
+		// "r". So the namespace of every type must declare the relation.
+		if _, ok := p.query().findRelation(t.Namespace, relation); !ok {
+			p.addErr(item, "relation %q was not declared in namespace %q",
+				relation, t.Namespace)
 		}
 	}
 }
